@@ -191,6 +191,23 @@ def gen_program(draw, pp, cfg, profile=None):
             break
     if stage_open is not None and draw(st.booleans()) and failing is None:
         steps.append({'op': 'end_stage', 'name': stage_open})
+    if profile.get('chain') and failing is None and draw(st.integers(0, 2)) == 0:
+        # chained recipes: bake what there is so far, ask it some tracking questions, then declare its results to a
+        # second recipe that carries on (state carried from one recipe to the next); only where no stage is open
+        spots = []
+        open_ = False
+        nreal = 0
+        for i, s_ in enumerate(steps):
+            if s_['op'] == 'start_stage':
+                open_ = True
+            elif s_['op'] == 'end_stage':
+                open_ = False
+            else:
+                nreal += 1
+            if not open_ and nreal >= 1 and any(x['op'] not in ('start_stage', 'end_stage') for x in steps[i + 1:]):
+                spots.append(i + 1)
+        if spots:
+            steps.insert(draw(st.sampled_from(spots)), {'op': 'rebake'})
     # only objects that some step uses are declared (bake refuses unused declarations; that rule is C16's)
     used = used_keys(steps)
     objects = [o for o in objects if o['name'] in used]
@@ -212,7 +229,20 @@ def used_keys(steps):
 
 
 def real_steps(prog):
-    return [s for s in prog['steps'] if s['op'] not in ('start_stage', 'end_stage')]
+    return [s for s in prog['steps'] if s['op'] not in ('start_stage', 'end_stage', 'rebake')]
+
+
+def split_chain(prog):
+    """(first segment, second segment) of a chained program, or (prog, None).  The second segment declares the
+    results of the first (plus original objects the first never used)."""
+    idx = next((i for i, s in enumerate(prog['steps']) if s['op'] == 'rebake'), None)
+    if idx is None:
+        return prog, None
+    s1, s2 = prog['steps'][:idx], prog['steps'][idx + 1:]
+    u1 = used_keys(s1)
+    seg1 = dict(prog, objects=[o for o in prog['objects'] if o['name'] in u1], steps=s1)
+    seg2 = dict(prog, objects=[o for o in prog['objects'] if o['name'] not in u1], steps=s2, carried=sorted(used_keys(s2)))
+    return seg1, seg2
 
 
 def stages_of(prog):
@@ -226,6 +256,8 @@ def stages_of(prog):
         elif s['op'] == 'end_stage':
             out[open_[0]] = (open_[1], n)
             open_ = None
+        elif s['op'] == 'rebake':
+            continue
         else:
             n += 1
     if open_ is not None:
@@ -334,10 +366,14 @@ class RecipeResult:
         self.fingerprints = []   # (label, object, view at hand-over time)
 
 
-def run_recipe(pp, R, prog, bake=True, uses_as_list=False):
+def run_recipe(pp, R, prog, bake=True, uses_as_list=False, carried=None):
+    """carried: {key: object} results of an earlier recipe that this one declares (chained recipes)"""
     rr = RecipeResult()
     recipe = rr.recipe = pp.Recipe()
     decl = rr.decl
+    for key, obj in (carried or {}).items():
+        decl[key] = obj
+        rr.fingerprints.append((f"declared:{key}", obj, bench.view(obj, pp)))
     for o in prog['objects']:
         decl[o['name']] = make_declared(pp, R, o)
         rr.fingerprints.append((f"declared:{o['name']}", decl[o['name']], bench.view(decl[o['name']], pp)))
@@ -360,6 +396,8 @@ def run_recipe(pp, R, prog, bake=True, uses_as_list=False):
     ridx = -1
     for s in prog['steps']:
         k = s['op']
+        if k == 'rebake':
+            continue
         if k not in ('start_stage', 'end_stage'):
             ridx += 1
         try:
@@ -491,16 +529,62 @@ def first_divergence(world, pp, rr, eager, prog):
 
 # ------------------------------------------------------------------------------------------------ baked pair for tracking checks
 
+class _EagerView:
+    """the part of an eager result that belongs to the second recipe of a chain (ledger indices shifted)"""
+
+    def __init__(self, eager, offset):
+        self.env = eager.env
+        self.snapshots = eager.snapshots[offset:]
+        self.exc = eager.exc
+        self.failed_at = eager.failed_at
+        self.created_at = {k: v - offset for k, v in eager.created_at.items()}
+
+
+def ask_everything(pp, world, rr):
+    """a battery of tracking questions whose answers are thrown away (fills whatever memo the library may keep)"""
+    for key, obj in sorted(rr.results.items()):
+        for real in world.real:
+            for dest in ([obj], 'plates'):
+                try:
+                    rr.recipe.get_substance_used(real, 'all', 'U' if real.is_enzyme() else 'umol', dest)
+                except Exception:  # noqa
+                    pass
+        for unit in ('uL', 'mg'):
+            try:
+                rr.recipe.get_container_flows(obj, 'all', unit)
+                rr.recipe.get_amount_remaining(obj, 'all', unit)
+            except Exception:  # noqa
+                pass
+
+
 def baked_pair(col, pp, prog):
-    """Run eager fold and recipe; return (world, eager, rr) only if both succeed and agree (else count and skip:
-    a disagreement is C08's business, the tracking checks judge only the tracking arithmetic)."""
+    """Run eager fold and recipe(s); return (world, eager, rr, prog') only if both succeed and agree at every step
+    (else count and skip: a disagreement is C08's business, the tracking checks judge only the tracking arithmetic).
+    For a chained program the first recipe is baked and questioned, its results are declared to a second recipe, and
+    (eager', rr', prog') describe that second recipe (ledger indices relative to its first step)."""
     world = bench.World(pp, subs_json=prog['subs'])
     R = world.real
     eager = run_eager(pp, R, prog)
     if eager.exc is not None:
         col.exclude('program does not run eagerly')
         return None
-    rr = run_recipe(pp, R, prog)
+    seg1, seg2 = split_chain(prog)
+    rr = run_recipe(pp, R, seg1)
+    offset = 0
+    view_prog = prog
+    if seg2 is not None and rr.results is not None:
+        col.label('chained-recipes')
+        offset = len(real_steps(seg1))
+        e1 = _EagerView(eager, 0)
+        e1.snapshots = eager.snapshots[:offset + 1]
+        if first_divergence(world, pp, rr, e1, seg1) != 'unrecorded':
+            col.exclude('an intermediate state of the bake differs from the eager fold (C08)')
+            return None
+        ask_everything(pp, world, rr)
+        carried = {k: rr.results[k] for k in seg2['carried'] if k in rr.results}
+        rr = run_recipe(pp, R, seg2, carried=carried)
+        eager = _EagerView(eager, offset)
+        view_prog = seg2
     if rr.add_exc is not None or rr.bake_exc is not None:
         col.exclude('bake refuses although eager accepts (C08)')
         return None
@@ -508,10 +592,10 @@ def baked_pair(col, pp, prog):
         if key not in eager.env or not same_object(world, bench.view(obj, pp), bench.view(eager.env[key], pp)):
             col.exclude('bake result differs from eager fold (C08)')
             return None
-    if first_divergence(world, pp, rr, eager, prog) != 'unrecorded':
+    if first_divergence(world, pp, rr, eager, view_prog) != 'unrecorded':
         col.exclude('an intermediate state of the bake differs from the eager fold (C08)')
         return None
-    return world, eager, rr
+    return world, eager, rr, view_prog
 
 
 def amount_in(world, view, name):
@@ -640,7 +724,7 @@ def check_c17(col, pp, cfg, prog):
     pair = baked_pair(col, pp, prog)
     if pair is None:
         return
-    world, eager, rr = pair
+    world, eager, rr, prog = pair
     ref = world.ref
     steps = real_steps(prog)
     stages = stages_of(prog)
@@ -730,7 +814,7 @@ def check_c19(col, pp, cfg, prog):
     pair = baked_pair(col, pp, prog)
     if pair is None:
         return
-    world, eager, rr = pair
+    world, eager, rr, prog = pair
     ref = world.ref
     steps = real_steps(prog)
     for i, (s, rs) in enumerate(zip(steps, rr.recipe.steps)):
